@@ -7,12 +7,14 @@ PATCH=$(readlink -f "$1"); DEMO=$(readlink -f "$2")
 S=/tmp/vet-$$; export CARGO_TARGET_DIR=/tmp/vet-target CARGO_NET_OFFLINE=true
 rm -rf $S; mkdir -p $S; rsync -a --exclude target --exclude .git /repo/ $S/r/
 cd $S/r
+find src Cargo.toml -exec touch {} +      # rsync keeps old mtimes: make cargo rebuild the macro from this copy
 cp "$DEMO" tests/seeded_demo.rs
 echo "== demo on clean tree (must pass)"
 cargo test --offline -q --test seeded_demo > $S/clean.log 2>&1; CLEAN=$?
 tail -3 $S/clean.log
 echo "== apply patch"
 if ! patch -p1 --no-backup-if-mismatch < "$PATCH" > $S/patch.log 2>&1; then cat $S/patch.log; echo "RESULT patch-does-not-apply"; rm -rf $S; exit 3; fi
+find src -exec touch {} +
 echo "== pinned suite with patch (must pass)"
 mv tests/seeded_demo.rs $S/demo.rs
 cargo test --workspace --no-fail-fast --offline > $S/suite.log 2>&1; SUITE=$?
